@@ -211,3 +211,7 @@ func (r *Reporter) Done() {
 func sprintf(f string, a ...any) string { return fmt.Sprintf(f, a...) }
 
 var quietLogger = slog.New(slog.NewTextHandler(io.Discard, &slog.HandlerOptions{Level: slog.Level(100)}))
+
+func (r *Reporter) exhaustiveOK() bool { r.mu.Lock(); defer r.mu.Unlock(); return r.exhaustive }
+
+func sscan(s, f string, a ...any) { fmt.Sscanf(s, f, a...) }
